@@ -283,6 +283,10 @@ class X:
     def _cmp(a, b, op):
         if isinstance(b, _np.ndarray):
             return X._arr(b, lambda c: STATE.alg.cmp(op, a.v, val(c)))
+        if isinstance(b, (float, _np.floating)) and _math.isinf(b):
+            # an exact scalar is a finite real (A1): its order against +-inf is decided, no term is built
+            pos = b > 0
+            return {"lt": pos, "le": pos, "gt": not pos, "ge": not pos, "eq": False, "ne": True}[op]
         return STATE.alg.cmp(op, a.v, val(b))
 
     def __lt__(a, b): return a._cmp(b, "lt")
@@ -791,6 +795,30 @@ class _NPX(_types.ModuleType):
     min = amin = _reduce("min")
     mean = _reduce("mean")
     del _reduce
+
+    def gradient(self, f, *varargs, axis=None, edge_order=1):
+        """numpy.gradient for 1-D data (edge_order 1): scalar spacing or a coordinate array; exact on object arrays"""
+        if not (_is_obj(f) or any(_is_obj(v) or isinstance(v, X) for v in varargs)) or getattr(f, "ndim", 1) != 1 \
+                or edge_order != 1 or len(varargs) > 1:
+            return _np.gradient(f, *varargs, **({} if axis is None else {"axis": axis}), edge_order=edge_order)
+        n = len(f)
+        F = [X(val(c)) for c in f]
+        out = _np.empty(n, dtype=object).view(XArray)
+        sp_ = varargs[0] if varargs else 1
+        if hasattr(sp_, "__len__"):
+            xs = [X(val(c)) for c in sp_]
+            out[0] = (F[1] - F[0]) / (xs[1] - xs[0])
+            out[n - 1] = (F[n - 1] - F[n - 2]) / (xs[n - 1] - xs[n - 2])
+            for i in range(1, n - 1):
+                hd, hs = xs[i + 1] - xs[i], xs[i] - xs[i - 1]
+                out[i] = (hs * hs * F[i + 1] + (hd * hd - hs * hs) * F[i] - hd * hd * F[i - 1]) / (hs * hd * (hd + hs))
+        else:
+            hh = X(val(sp_))
+            out[0] = (F[1] - F[0]) / hh
+            out[n - 1] = (F[n - 1] - F[n - 2]) / hh
+            for i in range(1, n - 1):
+                out[i] = (F[i + 1] - F[i - 1]) / (2 * hh)
+        return out
 
     def sum(self, a, axis=None, **k):
         if hasattr(a, "vreduce"):
